@@ -137,6 +137,18 @@ class _Alpha(ast.NodeTransformer):
             return ast.copy_location(ast.Name(id="§", ctx=ast.Load()), n)
         return n
 
+    def visit_JoinedStr(self, n):
+        # ast.unparse spells f-strings differently in Python 3.11 and 3.12 (PEP 701 quoting): the signature text must not
+        # depend on the interpreter, so an f-string is written as a call of its parts
+        self.generic_visit(n)
+        parts = []
+        for v in n.values:
+            if isinstance(v, ast.FormattedValue):
+                parts.append(v.value)
+            else:
+                parts.append(v)
+        return ast.copy_location(ast.Call(func=ast.Name(id="__fstr__", ctx=ast.Load()), args=parts, keywords=[]), n)
+
 
 def _alpha_text(e, locals_):
     import copy
